@@ -194,6 +194,23 @@ def run(ck):
                 ck.results.append(r)
     except Exception as e:
         ck.undecided("C10.R4", "rotation rules", "", "could not evaluate the rotation rules: %s" % e)
+    # ------------------------------------------------------------------ R5 history independence (three-call protocol)
+    from .history import check_history
+
+    for cls in STATES:
+        wf = cls != "DensityMatrix"
+        for mname in ("fidelity", "KL", "NLL"):
+            if mname == "fidelity" and not wf:
+                continue  # leaves torch (numpy eigenvalues): no term to compare
+            fn_ = prog.func(M, mname)
+
+            def mk(it, cls=cls, wf=wf, mname=mname):
+                s = make_state(it, cls)
+                x = tens(it, "samples", ("B", "nv")) if mname == "NLL" else api.cx_t(it, "target", ("N",) if wf else ("N", "N"))
+                return (s, x, tens(it, "space", ("N", "nv")))
+
+            check_history(ck, "C10.R5", "%s/%s" % (mname, cls), fn_.site(), mk, lambda it, c, fn_=fn_: it.call_function(VFunc(fn_), [c[0], c[1]], {"space": c[2]}, None), max_paths=40)
+    ck.require_min("C10.R5", 7)
     ck.require_min("C10.R1", 20)
     ck.require_min("C10.R2", 10)
     ck.require_min("C10.R3", 12)
